@@ -683,6 +683,16 @@ def body_subgroup(case, ctx):
 def adjoint_case(draw, min_dim=1):
     n = draw(st.sampled_from([d for d in [1, 2, 2, 3, 3, 4] if d >= min_dim]))
     c = draw(derived_case(max_dim=n, min_dim=n, wlen=8, max_gens=3))
+    if c["kind"] == "int" and draw(st.booleans()):
+        # integer generators whose inverse is NOT an integer matrix (det +-2, +-3): the
+        # adjoint then has genuinely fractional entries (an integer-typed result would be
+        # truncated)
+        for m in c["mats"]:
+            if draw(st.booleans()):
+                r = draw(st.integers(0, n - 1))
+                f = draw(st.sampled_from([2, 3]))
+                m[r] = [f * x for x in m[r]]
+        c["words"] = [w[:5] for w in c["words"]]
     return c
 
 
